@@ -199,6 +199,10 @@ func AESGCMDecrypt(key, data []byte) ([]byte, error) {
 		return nil, err
 	}
 
+	if len(data) < gcm.NonceSize() {
+		return nil, errcode.ErrCode_ErrInvalidInput.Wrap(fmt.Errorf("data is shorter than the nonce"))
+	}
+
 	nonce, ciphertext := data[:gcm.NonceSize()], data[gcm.NonceSize():]
 
 	plaintext, err := gcm.Open(nil, nonce, ciphertext, nil)
@@ -218,6 +222,10 @@ func AESCTRStream(key, iv []byte) (cipher.Stream, error) {
 	blockCipher, err := aes.NewCipher(key)
 	if err != nil {
 		return nil, err
+	}
+
+	if len(iv) != blockCipher.BlockSize() {
+		return nil, errcode.ErrCode_ErrInvalidInput.Wrap(fmt.Errorf("invalid IV size, expected %d bytes, got %d", blockCipher.BlockSize(), len(iv)))
 	}
 
 	stream := cipher.NewCTR(blockCipher, iv)
